@@ -59,15 +59,18 @@ class Block:
         :type network: str, Network
         """
 
-        self.block_hash = to_bytes(block_hash)
+        # Raw header fields of the right length are taken as they are: to_bytes() would read bytes that happen to be
+        # ASCII hex digits (one 4-byte nonce in 18000) as a hexadecimal string
+        self.block_hash = block_hash if isinstance(block_hash, bytes) and len(block_hash) == 32 else to_bytes(block_hash)
         if isinstance(version, int):
             self.version = version.to_bytes(4, byteorder='big')
             self.version_int = version
         else:
-            self.version = to_bytes(version)
+            self.version = version if isinstance(version, bytes) and len(version) == 4 else to_bytes(version)
             self.version_int = 0 if not self.version else int.from_bytes(self.version, 'big')
-        self.prev_block = to_bytes(prev_block)
-        self.merkle_root = to_bytes(merkle_root)
+        self.prev_block = prev_block if isinstance(prev_block, bytes) and len(prev_block) == 32 else to_bytes(prev_block)
+        self.merkle_root = merkle_root if isinstance(merkle_root, bytes) and len(merkle_root) == 32 else \
+            to_bytes(merkle_root)
         self.time = time
         if not isinstance(time, int):
             self.time = int.from_bytes(time, 'big')
@@ -75,13 +78,13 @@ class Block:
             self.bits = bits.to_bytes(4, 'big')
             self.bits_int = bits
         else:
-            self.bits = to_bytes(bits)
+            self.bits = bits if isinstance(bits, bytes) and len(bits) == 4 else to_bytes(bits)
             self.bits_int = 0 if not self.bits else int.from_bytes(self.bits, 'big')
         if isinstance(nonce, int):
             self.nonce = nonce.to_bytes(4, 'big')
             self.nonce_int = nonce
         else:
-            self.nonce = to_bytes(nonce)
+            self.nonce = nonce if isinstance(nonce, bytes) and len(nonce) == 4 else to_bytes(nonce)
             self.nonce_int = 0 if not self.nonce else int.from_bytes(self.nonce, 'big')
         self.transactions = transactions
         self.transactions_dict = []
